@@ -77,6 +77,10 @@ CHECKS = {
              text="TLC-enumerated: 21 construct kinds outside the allowed subset x 17 syntactic positions (evaluated, short-circuited, untaken branch) x concrete realisations x pathways, the tool pathway's callee forms, and a 254-element resource family (powers, products, repetition, factorials, towers) plus hand-written bombs; seeded arbitrary strings; the allow-list tables read from the current source. Every evaluation is timed from outside the process (K x timeout_seconds) under a memory limit, with audit and profile hooks recording exec / import / open / process events and denied builtins attributable to the engine or to code compiled from the expression.",
              note="Trusted: TLC/SANY, CPython's audit events and profile hook, the realisations of each construct kind. The size model is validated against CPython on the computable part of the family in every run. 'All strings' is sampled; an unmodelled slow primitive can escape the enumerated family (DESIGN.md section 10).",
              ref="DESIGN.md section 4 C01"),
+ "C10": dict(technique="TLA+ spec (Gates.tla: Membrane as a history machine over abstract signatures / inputs) model-checked with TLC; real Membrane explored by BFS with inputs built around planted signature instances and every edge judged by TLC (Trace_Gates.tla) with replay-memory, rate-window and rule-epoch monitors carried by TLC; InnateImmunity.check judged by TLC on flat records (Trace_Innate.tla); TLC -simulate behaviours replayed",
+             text="Bounded-exhaustive histories (depth 5 quick / 7 thorough) of filter / learn / forget / import / add_signature / threshold change / clock advance on the real Membrane over 15 inputs (four planted-signature groups, substring and regex, built-in / learned / custom, plain / case-swapped / embedded / hostile-decorated) with and without rate limits; innate gate over pattern combinations x thresholds 1..5 x variants and the shipped validators on hostile text; TLC evaluates AllowedSound, PlantedIsMatched, LevelIsMax, VariantMonotone, ReplayMemory, RateLimit, AuditAppend and NoRaise.",
+             note="Trusted: TLC/SANY; ground truth is by construction (planted instances), matching is never re-implemented. Which concrete strings a regex matches is reached by sampling only (DESIGN.md section 10).",
+             ref="DESIGN.md section 4 C10"),
 }
 NOT_APPLICABLE = []
 
